@@ -85,6 +85,8 @@ def factory_sites(path):
                      if not (isinstance(st, ast.Expr) and isinstance(st.value, ast.Constant))
                      and not (isinstance(st, ast.ClassDef) and st.name == cls.name)
                      and not isinstance(st, ast.Return)]
+            # compared between factories as a collection (the order of independent statements is C11's business)
+            setup = sorted(setup)
             out.append((fn.name, cls.name, canonical(call[0], handed), alias, setup))
     return out
 
